@@ -28,7 +28,7 @@ import (
 	p2pmock "github.com/gauss-project/aurorafs/pkg/p2p/mock"
 	pingpongmock "github.com/gauss-project/aurorafs/pkg/pingpong/mock"
 	"github.com/gauss-project/aurorafs/pkg/shed"
-	_ "github.com/gauss-project/aurorafs/pkg/shed/leveldb"
+	shedldb "github.com/gauss-project/aurorafs/pkg/shed/leveldb"
 	mockstate "github.com/gauss-project/aurorafs/pkg/statestore/mock"
 	"github.com/gauss-project/aurorafs/pkg/subscribe"
 	"github.com/gauss-project/aurorafs/pkg/topology"
@@ -107,11 +107,20 @@ func c23Dist(a, b boson.Address) *big.Int {
 	return new(big.Int).SetBytes(x)
 }
 
+// shed registers "leveldb" only under the `leveldb` build tag: register the same
+// real driver under a private name (path "" = goleveldb MemStorage). The option
+// string shrinks the 32 MiB default write buffer that is zeroed on every open;
+// buffer sizes do not influence key/value semantics.
+const c23Driver = "verifc23leveldb"
+const c23DriverCfg = `:{"WriteBuffer":16384,"BlockCacheCapacity":16384}`
+
+func init() { shed.Register(c23Driver, shedldb.Driver{}) }
+
 var c23SubPub = subscribe.NewSubPub() // stateless without subscribers; shared because every instance owns an immortal goroutine
 
 // a real Kad as in kademlia_test.go:newTestKademliaWithAddrDiscovery; manage loop not started.
 func c23NewKad(x *mc.X) (*Kad, func()) {
-	db, err := shed.NewDB("", &shed.Options{Driver: "leveldb"})
+	db, err := shed.NewDB("", &shed.Options{Driver: c23Driver + c23DriverCfg})
 	x.NoErr(err, "shed.NewDB")
 	ab := addressbook.New(mockstate.NewStateStore())
 	p2ps := p2pmock.New(p2pmock.WithDisconnectFunc(func(boson.Address, string) error { return nil }))
